@@ -88,6 +88,10 @@ STMTS = [
      ["hex_set_usr_field(", "hex_get_usr_field("]),
     ("void_call_stmtexpr_arg", "must_accept", "set_usr_field(bundle, HEX_REG_FIELD_USR_OVF, ({ int32_t q = RtV; q; }));", ["hex_set_usr_field(", 'SETL("q"']),
     ("value_call_unused", "must_accept", "get_usr_field(bundle, HEX_REG_FIELD_USR_LPCFG);", ["hex_get_usr_field("]),
+    ("stmt_expr_stmts_only3", "may", "({ ReV = 1; RxV = 2; RyV = 3; });", [W % "Re", W % "Rx", W % "Ry"]),
+    ("stmt_expr_stmts_only4", "may", "({ ReV = 1; RxV = 2; RyV = 3; i++; });", [W % "Re", W % "Rx", W % "Ry", 'SETL("i", INC']),
+    ("stmt_expr_stmts_only2", "may", "({ ReV = 1; RxV = 2; });", [W % "Re", W % "Rx"]),
+    ("macro_stmt", "may", "HEX_SETROUND(hi, RZ_FLOAT_RMODE_RTZ);", ["HEX_SETROUND("]),
     ("stmt_expr_three_stmts", "may", "ReV = ({ RxV = 1; RyV = 2; RtV; });", [W % "Re", W % "Rx", W % "Ry"]),
 ]
 EXPRS = [
